@@ -236,6 +236,14 @@ func C01(tier string) int {
 		o.Fault = "write"
 		ops2 = append(ops2, o)
 	}
+	for k := 0; k < 2; k++ {
+		// Attestation data submitted to the generic batch endpoint under the attester domain type, beside an ordinary
+		// generic entry for the other key (in both orders): if that is ever signed it is an attestation like any other.
+		for _, st := range [][2]uint64{{0, 1}, {0, 2}} {
+			ops2 = append(ops2, SOp{Kind: "msign-att-first", Ents: []Ent{{Key: k, S: st[0], T: st[1], Root: 2}, {Key: 1 - k}}},
+				SOp{Kind: "msign-att-last", Ents: []Ent{{Key: k, S: st[0], T: st[1], Root: 2}, {Key: 1 - k}}})
+		}
+	}
 	st2 := newStats()
 	r2, err := bfs.Explore(bfs.Config[SOp]{
 		NewWorker: func() (bfs.Worker[SOp], error) {
